@@ -106,6 +106,13 @@ func (g *bridgeGen) mine() *btcBlock {
 		cb, cbid = btc.Tx(g.r, []btc.Out{{Value: 50_0000_0000, Script: []byte{txscript.OP_TRUE}}}, 4)
 	}
 	b.raws, b.txids = [][]byte{cb}, [][]byte{cbid}
+	// one block in three is shaped so that its last transaction is a pending one at the end of an odd level: Bitcoin's
+	// duplicate-last rule then lets that transaction verify at a second position
+	aliasShape := len(g.pendRaw) > 0 && g.r.Intn(3) == 0
+	if aliasShape && (1+len(g.pendRaw))%2 == 0 {
+		raw, id := btc.Tx(g.r, []btc.Out{{Value: 1000, Script: []byte{txscript.OP_TRUE}}}, 0)
+		b.raws, b.txids = append(b.raws, raw), append(b.txids, id)
+	}
 	for i, raw := range g.pendRaw {
 		b.raws = append(b.raws, raw)
 		b.txids = append(b.txids, goatcrypto.DoubleSHA256Sum(raw))
@@ -113,7 +120,7 @@ func (g *bridgeGen) mine() *btcBlock {
 	}
 	g.pending, g.pendRaw = nil, nil
 	// pad with unrelated transactions so that trees have several shapes
-	for k := g.r.Intn(4); k > 0; k-- {
+	for k := g.r.Intn(4); k > 0 && !aliasShape; k-- {
 		raw, id := btc.Tx(g.r, []btc.Out{{Value: 1000, Script: []byte{txscript.OP_TRUE}}}, 0)
 		b.raws, b.txids = append(b.raws, raw), append(b.txids, id)
 	}
@@ -273,6 +280,15 @@ func (g *bridgeGen) depositItem(d *depInfo, flaw string) (*bitcointypes.Deposit,
 		// Bitcoin's duplicate-last rule lets the last leaf of an odd level also verify at the position of its copy
 		depth := len(blk.tree.Levels) - 1
 		f["pos"], f["spvOk"] = p2, p2 < 1<<uint(depth) && merkleSrc(depth, len(blk.txids), p2) == d.pos
+	case "dupAlias": // the same output once more, under the position of its Merkle duplicate if it has one (else plainly repeated)
+		depth := len(blk.tree.Levels) - 1
+		for p2 := 0; p2 < 1<<uint(depth); p2++ {
+			if p2 != d.pos && merkleSrc(depth, len(blk.txids), p2) == d.pos {
+				dep.TxIndex = uint32(p2)
+				f["pos"] = p2
+				break
+			}
+		}
 	case "posAlias": // same low bits, extra high bits
 		depth := len(blk.tree.Levels) - 1
 		k := 1
@@ -729,6 +745,25 @@ func (g *bridgeGen) plan(mode string) (*BlockPlan, error) {
 					flaw = []string{"otherEvm", "otherKey", "version", "otherOut"}[r.Intn(4)]
 				} else if rare(4) {
 					flaw = []string{"otherEvm", "otherKey", "version", "version2", "outIdx", "otherOut", "pos", "posAlias", "proof", "proofTrunc", "proofRagged", "header", "noHeader", "evmLen", "txTrunc"}[r.Intn(15)]
+				}
+				if flaw == "none" && j > 1 && rare(3) {
+					for _, x := range cand { // prefer an output that really has a second position
+						if bx := g.chain[x.blk]; bx != nil && x.pos == len(bx.txids)-1 && len(bx.txids)%2 == 1 && len(bx.txids) > 1 {
+							d = x
+							break
+						}
+					}
+				}
+				if flaw == "none" && j > 1 && rare(4) { // the same output twice in one batch (second time under an alias position)
+					dep0, hdr0, f0 := g.depositItem(d, "none")
+					m.Deposits = append(m.Deposits, dep0)
+					if hdr0 != nil && !seenH[hdr0.Height] {
+						m.BlockHeaders = append(m.BlockHeaders, hdr0)
+						seenH[hdr0.Height] = true
+					}
+					items = append(items, f0)
+					flaw = "dupAlias"
+					j--
 				}
 				dep, hdr, f := g.depositItem(d, flaw)
 				m.Deposits = append(m.Deposits, dep)
